@@ -92,8 +92,13 @@ def is_const(t):
 
 
 class Deep:
-    def __init__(self, F, root, max_paths=3000, max_depth=6, inline=True, opaque=None, inline_only=None, stop_at=(), prune=None, unroll=1, watch_named=False):
+    def __init__(self, F, root, max_paths=3000, max_depth=6, inline=True, opaque=None, inline_only=None, stop_at=(), prune=None, unroll=1, watch_named=False,
+                 pure_cache=False):
         self.stop_at = frozenset(stop_at)
+        # pure_cache: a second call of a side-effect-free std accessor (`slice.last()`, `v.len()`, `path.to_str()` ..) with the
+        # very same argument terms yields the same term (and no second effect) — keeps a condition that is evaluated several
+        # times (a style closure called per fragment) from re-branching every time
+        self.pure_cache = pure_cache
         # unroll: how often a block of the root frame may be visited on one path (2 = every loop body is followed by
         # one more turn, so that what one turn accumulates can be seen in what is done after the loop)
         self.unroll = unroll
@@ -633,7 +638,26 @@ class Deep:
             return False
         return True
 
+    PURE = re.compile(r"(slice::<impl \[T\]>::(last|first|len|is_empty)|Vec::<.*>::(len|is_empty)|str::<impl str>::(len|is_empty)|String::(len|is_empty|as_str)|Path::to_str|"
+                      r"Option::<.*>::(is_some|is_none)|Iterator::last|slice::<impl \[T\]>::iter)$")
+
     def _opaque(self, st, path, args, site, cont, f=None):
+        if self.pure_cache and self.PURE.search(path):
+            key = ("pure", path, tuple(args))
+            try:
+                hit = st.heap.get(key)
+            except TypeError:
+                hit, key = None, None
+            if hit is not None:
+                return cont(st, hit)
+            if key is not None:
+                def cont2(st2, v, cont=cont, key=key):
+                    st2.heap[key] = v
+                    cont(st2, v)
+                return self._opaque_(st, path, args, site, cont2, f)
+        return self._opaque_(st, path, args, site, cont, f)
+
+    def _opaque_(self, st, path, args, site, cont, f=None):
         uid = self.fresh()
         # shared references to known values (`&ScenarioType::Serial`, `&key`) are shown by value
         def by_value(a, depth=0):
